@@ -1,2 +1,53 @@
-(* C09 -- statement file; proofs in Sess/ *)
-From SV Require Import Sess.Model.
+(* C09 -- client correlates responses to requests strictly by message ID. *)
+From Coq Require Import ZArith List Bool.
+From Coq.Strings Require Import Byte.
+From SV Require Import Base.Bytes Base.Py Msg.Types Msg.Encode Sess.Model Sess.Drain Sess.Ids.
+Import ListNotations.
+Local Open Scope Z_scope.
+
+Theorem C09_invariant_initially : ids_inv (init Client).
+Proof. exact ids_inv_init. Qed.
+
+(* ids are positive, fresh, consecutive, and are the ids carried by the queued bytes *)
+Theorem C09_request_ids :
+  forall d s c s' i, s_role s = Client -> ids_inv s -> is_request_call c = true -> step d s c = (s', ORetId i) ->
+  i = s_counter s /\ 0 < i /\ s_counter s' = i + 1 /\ ~ In i (s_outstanding s) /\ In i (s_outstanding s') /\
+  exists m, msg_of_call s c = Some m /\ m_id m = i /\ s_out s' = s_out s ++ enc_msg m.
+Proof. exact request_ids. Qed.
+
+(* rejected calls, deliveries and drains never consume an id *)
+Theorem C09_counter_moves_only_on_accepted_request :
+  forall d s c s' o, step d s c = (s', o) ->
+  s_counter s' = s_counter s \/
+  (s_role s = Client /\ is_request_call c = true /\ o = ORetId (s_counter s) /\ s_counter s' = s_counter s + 1).
+Proof. exact counter_moves_only_on_accepted_request. Qed.
+
+Theorem C09_response_accepted_iff_in_progress :
+  forall s m, s_state s <> CLOSED -> ids_inv s -> is_response (kind_of (m_op m)) = true ->
+  (snd (process_client s m) = None <-> In (m_id m) (s_outstanding s)) /\
+  (forall k, snd (process_client s m) <> Some (PCrash k)).
+Proof. exact response_accepted_iff_in_progress. Qed.
+
+Theorem C09_request_message_rejected :
+  forall s m, is_response (kind_of (m_op m)) = false -> process_client s m = (s, Some (PF None false)).
+Proof. exact request_message_rejected. Qed.
+
+Theorem C09_unknown_id_rejected :
+  forall s m, s_state s <> CLOSED -> ids_inv s -> ~ In (m_id m) (s_outstanding s) ->
+  process_client s m = (s, Some (PF None false)).
+Proof. exact unknown_id_rejected. Qed.
+
+Theorem C09_retirement :
+  forall s m s', process_client s m = (s', None) ->
+  let stays := zmem (m_id m) (s_searches s) && negb (match kind_of (m_op m) with KDone => true | _ => false end) in
+  (stays = true -> s_outstanding s' = s_outstanding s /\ s_searches s' = s_searches s) /\
+  (stays = false -> ~ In (m_id m) (s_outstanding s') /\ ~ In (m_id m) (s_searches s')).
+Proof. exact retirement. Qed.
+
+Print Assumptions C09_invariant_initially.
+Print Assumptions C09_request_ids.
+Print Assumptions C09_counter_moves_only_on_accepted_request.
+Print Assumptions C09_response_accepted_iff_in_progress.
+Print Assumptions C09_request_message_rejected.
+Print Assumptions C09_unknown_id_rejected.
+Print Assumptions C09_retirement.
